@@ -416,8 +416,10 @@ func NewTableCellBox(style pr.ElementStyle, element *html.Node, pseudoType strin
 	// but HTML 5 removed it
 	// http://www.w3.org/TR/html5/tabular-data.html#attr-tdth-colspan
 	// rowspan=0 is still there though.
-	out.Colspan = integerAttribute(utils.HTMLNode(*element).Get("colspan"), 1)
-	out.Rowspan = integerAttribute(utils.HTMLNode(*element).Get("rowspan"), 0)
+	// and clamps the values : colspan to [1, 1000], rowspan to [0, 65534]
+	// https://html.spec.whatwg.org/multipage/tables.html#attr-tdth-colspan
+	out.Colspan = utils.MinInt(integerAttribute(utils.HTMLNode(*element).Get("colspan"), 1), 1000)
+	out.Rowspan = utils.MinInt(integerAttribute(utils.HTMLNode(*element).Get("rowspan"), 0), 65534)
 	return &out
 }
 
